@@ -763,7 +763,7 @@ class C06(Suite):
         route = "*" if c["route"] is None else route_line(c["route"])
         rand = ",".join(map(str, c["rand"])) if c["rand"] else "-"
         frames = ";".join(frame_line(fr) for fr in c["frames"]) if c["frames"] else "-"
-        return f"srv 1 {route} {c['budget']} {c['tagline']} {rand} {frames}"
+        return f"sess 1 {route} {c['budget']} {c['tagline']} {rand} {frames}"
 
     def known_key(self, c):
         return json.dumps({k: c[k] for k in ("budget", "tags", "route", "rand", "frames")}, sort_keys=True)
